@@ -1,9 +1,9 @@
-use crate::solvers::common::{DisplayValue, LpSolution, SolverError, format_float};
+use crate::solvers::common::{DisplayValue, LpSolution, SolutionStatus, SolverError, format_float};
 use crate::transformers::LinearModel;
 use crate::{
     Assignment, Comparison, OptimizationType, VariableType, make_constraints_map_from_assignment,
 };
-use microlp::{ComparisonOp, Error, OptimizationDirection, Problem, SolveOptions};
+use microlp::{ComparisonOp, Error, OptimizationDirection, Problem, SolveOptions, Status};
 use serde::{Deserialize, Serialize};
 use std::fmt::{Display, Formatter};
 use std::time::Duration;
@@ -179,6 +179,14 @@ pub fn solve_milp_lp_problem_with(
 
     match problem.solve_with(solve_options) {
         Ok(s) => {
+            // MicroLP only answers the problem when the search was not cut short: an
+            // interrupted search holds a working point that may be fractional or
+            // infeasible, and a feasible-but-unproven incumbent is not an optimum
+            let status = match s.status() {
+                Status::Optimal => SolutionStatus::Optimal,
+                Status::Feasible => SolutionStatus::Feasible,
+                Status::Interrupted => return Err(SolverError::LimitReached),
+            };
             let assignment = microlp_vars
                 .iter()
                 .zip(variables)
@@ -204,7 +212,8 @@ pub fn solve_milp_lp_problem_with(
                 assignment,
                 s.objective() + lp.objective_offset(),
                 constraints,
-            ))
+            )
+            .with_status(status))
         }
         Err(e) => Err(match e {
             Error::InternalError(s) => SolverError::Other(s),
